@@ -107,6 +107,9 @@ def brightest_pixel(img, threshold, **kwargs):
 
     nPxls = int(round(threshold*img.shape[-1]*img.shape[-2]))
 
+    # the level is subtracted below: in a signed type, unsigned camera frames would wrap around under the level
+    img = img.astype(numpy.result_type(img.dtype, numpy.int64))
+
     if len(img.shape)==2:
         pxlValue = numpy.sort(img.flatten())[-nPxls]
         img = img - pxlValue
